@@ -465,7 +465,7 @@ def replay(path):
     if lines:
         real = run_real(lines, 'default')
         # the model is per pixel: a layout suffix (` L<mode> <index>`, multi-row frame in the real run) is dropped for it
-        model = run_driver([re.sub(r' L[12] \d+$', '', l) for l in lines], ('1', '0')) if os.path.exists(os.path.join(LEAN, '.lake', 'build', 'bin', 'driver')) else ['?'] * len(lines)
+        model = run_driver([re.sub(r' (L[1-4] \d+|S \d+ \d+ \d+)$', '', l) for l in lines], ('1', '0')) if os.path.exists(os.path.join(LEAN, '.lake', 'build', 'bin', 'driver')) else ['?'] * len(lines)
         for l, a, b in zip(lines, real, model):
             print('request: %s\n   real : %s\n   model: %s' % (l, a, b))
     for f in d.get('failing_inputs', []):
